@@ -24,10 +24,14 @@ import Mathlib.Tactic.Ring
   `1 * ·` and the constructor; any zero-free divisor, in particular a positive one): `X.div(Y,'p')`
   returns the sorted endpoints of the focal quotients `X_k / Y_k`, `X.div(Y,'o')` those of
   `X_k / Y_{n-1-k}`;
-* `condense_index`, `condense_block`: condensing the `n²` sorted endpoints of the independent rule
-  takes entry `k(n+1)`, which lies in the `k`-th block of `n` — "within one probability step".
-Not proved here (tie + oracle only): division by a divisor with a zero bound raises (`C02.div_zero_bound_raises`)
-and a zero-straddling divisor without a zero bound is not modelled as an error.
+* `condense_index`, `condense_block` (now in `Pun.Lemmas.PBoxFrechet2`): condensing the `n²` sorted
+  endpoints of the independent rule takes entry `k(n+1)`, which lies in the `k`-th block of `n` —
+  "within one probability step"; `mk_indep_ok` there says the constructor does exactly that.
+Missing (tie + oracle only): `perfect_mul_steps` for operands that are not both non-negative (the
+product then re-orders the steps; only `perfectOp_perm_sorted` holds); the `sub`/`div` mirroring under
+`'i'` is trivial (`swapPO .i = .i`) and not stated; a divisor with a zero bound raises
+(`div_zero_bound_raises` in `Props/C02.lean`), a zero-straddling divisor without a zero bound is not
+covered by `div_mirror_*` (its reciprocal is not a p-box).
 -/
 set_option linter.unusedSimpArgs false
 set_option linter.unusedVariables false
@@ -349,27 +353,8 @@ example : WF 2 ⟨[1, 2], [2, 4]⟩ := ⟨⟨rfl, rfl, by decide, by decide⟩, 
 example : ZeroFree ⟨[1, 2], [2, 4]⟩ := Or.inl (by decide)
 example : List.zipWith (· - ·) [1, 2] [6, 1] = ([-5, 1] : List Rat) := by decide +kernel
 
-/-- condensation index for `n²` values down to `n`: entry `k(n+1)` -/
-theorem condense_index (n k : Nat) (hn : 2 ≤ n) : condenseIdx (n * n) n k = k * (n + 1) := by
-  unfold condenseIdx
-  have h1 : ¬ n ≤ 1 := by omega
-  simp only [h1, if_false]
-  have h2 : n * n - 1 = (n + 1) * (n - 1) := by
-    obtain ⟨m, rfl⟩ : ∃ m, n = m + 2 := ⟨n - 2, by omega⟩
-    have e1 : m + 2 - 1 = m + 1 := by omega
-    have e2 : (m + 2) * (m + 2) = (m + 2 + 1) * (m + 1) + 1 := by ring
-    rw [e1, e2]; omega
-  rw [h2, ← Nat.mul_assoc, Nat.mul_div_cancel _ (by omega : 0 < n - 1)]
-
-/-- … which lies in the `k`-th block of `n` consecutive order statistics -/
-theorem condense_block (n k : Nat) (hn : 2 ≤ n) (hk : k < n) :
-    k * n ≤ condenseIdx (n * n) n k ∧ condenseIdx (n * n) n k ≤ k * n + (n - 1) := by
-  rw [condense_index n k hn]
-  constructor
-  · nlinarith
-  · have : k * (n + 1) = k * n + k := by ring
-    omega
-
+/-! `condense_index`, `condense_block` are in `Pun.Lemmas.PBoxFrechet2` (shared with C02's enclosure of the
+independent result). -/
 example : condenseIdx (200 * 200) 200 7 = 7 * 201 := by decide +kernel
 
 end Pun.PBox
